@@ -30,7 +30,7 @@ class TransitionsHelper(Contract):
         avail = L.max(0, n - lag)
         return L.ite(sliding, m == avail,
                      L.And(m >= 0, L.implies(avail == 0, m == 0),
-                           L.implies(avail > 0, L.And((m - 1) * lag < avail, avail <= m * lag))))
+                           L.implies(avail > 0, L.And(L.mul(m - 1, lag) < avail, avail <= L.mul(m, lag)))))
 
     def ensures(self, L, A, N, R, G, V):
         a, lag, sl = A['assigns_1d'], A['lag_time'], A['sliding_window']
@@ -39,9 +39,9 @@ class TransitionsHelper(Contract):
         s = L.ite(sl, 1, lag)
         return [('two-rows', L.shape(R, 0) == 2),
                 ('number-of-pairs', self.width(L, n, lag, sl, m)),
-                ('pairs-inside-trajectory', L.forall(0, m, lambda t: L.And(t * s >= 0, t * s + lag < n))),
-                ('start-states', L.forall(0, m, lambda t: R[0, t] == a[t * s])),
-                ('end-states', L.forall(0, m, lambda t: R[1, t] == a[t * s + lag]))]
+                ('pairs-inside-trajectory', L.forall(0, m, lambda t: L.And(L.mul(t, s) >= 0, L.mul(t, s) + lag < n))),
+                ('start-states', L.forall(0, m, lambda t: R[0, t] == a[L.mul(t, s)])),
+                ('end-states', L.forall(0, m, lambda t: R[1, t] == a[L.mul(t, s) + lag]))]
 
     def pins(self):
         import z3
@@ -114,3 +114,113 @@ class AssignsToCounts(Contract):
         if sliding:
             out.append(('total-is-sum-of-max-0-len-minus-lag', int(got.sum()) == total_sliding))
         return out
+
+
+class AssignsToCountsSym(Contract):
+    """Deductive contract of assigns_to_counts on a rectangular -1-padded array (symbolic number of trajectories, length, lag).
+    stripped row r = the order-preserving sub-sequence of row r without -1 (np.where contract);
+    the coordinate list is the concatenation over r of the lagged pairs of stripped row r (so no pair spans two trajectories):
+        coords[0, OFF(r)+t] = strip_r[t*s],  coords[1, OFF(r)+t] = strip_r[t*s+lag],  t < m_r,  OFF = prefix sums of the m_r;
+    every coordinate is one unit count; the matrix is square with max_n_states (or largest state + 1)."""
+    key = F + 'assigns_to_counts'
+    abstract_nonlinear = True        # products t*lag only need to stay syntactically equal here (the arithmetic is the helper's)
+
+    def __init__(self, explicit_states=True, sliding=True):
+        self.explicit, self.sliding = explicit_states, sliding
+
+    def params(self, e, st):
+        import z3
+        from pyvc.logic import Arr
+        from pyvc.engine import NONE
+        return {'assigns': e.new_obj(st, Arr(z3.Array('assigns', z3.IntSort(), z3.IntSort(), z3.IntSort()), (z3.Int('n_trj'), z3.Int('n_frames')), 'int')),
+                'lag_time': z3.Int('lag'), 'max_n_states': z3.Int('max_n_states') if self.explicit else NONE, 'sliding_window': self.sliding}
+
+    def requires(self, L, A, G):
+        a = A['assigns']
+        c = [('lag-at-least-1', A['lag_time'] >= 1), ('has-trajectories', L.shape(a, 0) >= 1),
+             ('states-nonneg-or-padding', L.forall2((0, L.shape(a, 0)), (0, L.shape(a, 1)), lambda r, t: a[r, t] >= -1))]
+        if self.explicit:
+            c.append(('states-below-explicit-count', L.forall2((0, L.shape(a, 0)), (0, L.shape(a, 1)), lambda r, t: a[r, t] < A['max_n_states'])))
+        else:
+            c.append(('some-assigned-frame', L.exists(0, L.shape(a, 0), lambda r: L.exists(0, L.shape(a, 1), lambda t: a[r, t] != -1))))
+        return c
+
+    def ensures(self, L, A, N, R, G, V):
+        import z3
+        a, lag, sl = A['assigns'], A['lag_time'], A['sliding_window']
+        n = L.shape(a, 0)
+        strip = V.raw('assigns')           # the local `assigns` now holds the stripped rows (ragged)
+        from pyvc.engine import Ref
+        S = V._st.heap[strip.oid]
+        coords = R.coords
+        PS = coords.meta['PS']
+        s = L.ite(sl, 1, lag)
+        r, t = L.var('q'), L.var('q')
+        row = S.row(r)
+        ln = row.shape[0]
+        avail = L.max(0, ln - lag)
+        # number of pairs of row r (width of its block), characterised without division
+        m = PS(r + 1) - PS(r)
+        width_ok = L.ite(sl, m == avail, L.And(m >= 0, L.implies(avail == 0, m == 0), L.implies(avail > 0, L.And(L.mul(m - 1, lag) < avail, avail <= L.mul(m, lag)))))
+        N_ = A['max_n_states'] if self.explicit else V['max_n_states']
+        return [('square-with-n-states', L.And(R.n_rows == N_, R.n_cols == N_)),
+                ('one-unit-count-per-pair', L.And(L.len(R.data) == L.shape(coords, 1), L.forall(0, L.len(R.data), lambda k: R.data[k] == 1))),
+                ('total-number-of-pairs', L.shape(coords, 1) == PS(n)),
+                ('pairs-per-trajectory', z3.ForAll([r], z3.Implies(z3.And(r >= 0, r < n), width_ok))),
+                ('pairs-never-span-trajectories', z3.ForAll([r, t], z3.Implies(z3.And(r >= 0, r < n, t >= 0, t < m),
+                                                                           z3.And(L.mul(t, s) + lag < ln, coords[0, PS(r) + t] == row[L.mul(t, s)], coords[1, PS(r) + t] == row[L.mul(t, s) + lag])))),
+                ('padding-removed-order-kept', self.strip_clause(L, a, S, n))]
+
+    @property
+    def cuts(self):
+        def ragged(V, name):
+            return V._st.heap[V.raw(name).oid]
+
+        def after_strip(L, V):
+            import z3
+            a = V.old['assigns']
+            S = ragged(V, 'assigns')
+            r, i = L.var('q'), L.var('q')
+            row = S.row(r)
+            hi = V.old['max_n_states'] if self.explicit else None
+            body = z3.And(row[i] >= 0, row[i] < hi) if hi is not None else (row[i] >= 0)
+            return [dict(name='stripped-values-are-states', fact=z3.ForAll([r, i], z3.Implies(z3.And(r >= 0, r < L.shape(a, 0), i >= 0, i < row.shape[0]), body)))]
+
+        def after_hstack(L, V):
+            import z3
+            coords = V['mat_coords']
+            BLK, PS = coords.meta['BLK'], coords.meta['PS']
+            S = ragged(V, 'assigns')
+            n = S.n
+            k = L.var('q')
+            lag = V.old['lag_time']
+            s = 1 if self.sliding else lag
+            row = S.row(BLK(k))
+            tt = k - PS(BLK(k))
+            r_, t_ = L.var('q'), L.var('q')
+            rowr = S.row(r_)
+            m_ = PS(r_ + 1) - PS(r_)
+            local = ['comp:assign', 'prim:np.hstack', 'pre:lag-at-least-1']
+            return [dict(name='pairs-never-span-trajectories', using=local,
+                         fact=z3.ForAll([r_, t_], z3.Implies(z3.And(r_ >= 0, r_ < n, t_ >= 0, t_ < m_),
+                                                             z3.And(L.mul(t_, s) + lag < rowr.shape[0], coords[0, PS(r_) + t_] == rowr[L.mul(t_, s)], coords[1, PS(r_) + t_] == rowr[L.mul(t_, s) + lag])))),
+                    dict(name='every-coordinate-is-a-lagged-pair-of-its-trajectory', using=local,
+                         fact=z3.ForAll([k], z3.Implies(z3.And(k >= 0, k < L.shape(coords, 1)),
+                                                        z3.And(L.mul(tt, s) + lag < row.shape[0], L.mul(tt, s) >= 0, coords[0, k] == row[L.mul(tt, s)], coords[1, k] == row[L.mul(tt, s) + lag]))))]
+        return {'assigns': after_strip, 'mat_coords': after_hstack}
+
+    def strip_clause(self, L, a, S, n):
+        import z3
+        r, i, j = L.var('q'), L.var('q'), L.var('q')
+        row = S.row(r)
+        # every stripped value is an assigned state (never the padding value)
+        return z3.ForAll([r, i], z3.Implies(z3.And(r >= 0, r < n, i >= 0, i < row.shape[0]), row[i] != -1))
+
+    def pins(self):
+        import z3
+        return [[z3.Int('n_trj') == 1, z3.Int('n_frames') == k] for k in (1, 2, 3)]
+
+
+def registry_counts(explicit=True, sliding=True):
+    cs = [TransitionsHelper(), AssignsToCountsSym(explicit, sliding)]
+    return {c.key: c for c in cs}
